@@ -24,6 +24,8 @@ CONSTANTS Ids,        \* task ids used by public operations
           WithStop,   \* Stop is part of the behaviours
           BoundPicks, \* TRUE: at most MaxPicks picks (bounds the safety search); FALSE: the counter saturates
           StopAfterPicks, StopAfterOps, StopPcs,  \* simulation only: earliest point / worker positions of Stop
+          CancelPcs,  \* simulation only: worker positions at which CancelTaskDelay is called
+          WithCancel, \* CancelTaskDelay is part of the behaviours
           ElapsedAlways  \* the wait loop's "elapsed >= waitUntil" is always true (replay fixtures use 1ns delays)
 
 VARIABLES items,      \* the code's slice
@@ -38,12 +40,13 @@ VARIABLES items,      \* the code's slice
           npicks,     \* picks so far (bound)
           fails,      \* failure counter per id
           backoffArg, \* argument of the last ExponentialBackoffFn call (or -1)
+          cancel,     \* cancelDelay flag: CancelTaskDelay was called during the wait in progress
           lateStart,  \* TRUE iff some task was handed to the handler although Stop had been
                       \* requested before the last context check preceding the pick
           act         \* label of the last action (observation only, hidden by VIEW)
 
-vars == <<items, ref, nops, wpc, cur, res, sleep, ctxDone, pickLate, npicks, fails, backoffArg, lateStart, act>>
-View == <<items, ref, nops, wpc, cur, res, sleep, ctxDone, pickLate, npicks, fails, backoffArg, lateStart>>
+vars == <<items, ref, nops, wpc, cur, res, sleep, ctxDone, pickLate, npicks, fails, backoffArg, lateStart, cancel, act>>
+View == <<items, ref, nops, wpc, cur, res, sleep, ctxDone, pickLate, npicks, fails, backoffArg, lateStart, cancel>>
 
 AllIds == Ids \cup Fresh
 NoRes  == [st |-> "none", after |-> <<>>, head |-> <<>>, tail |-> <<>>, delay |-> FALSE]
@@ -53,7 +56,7 @@ CanOp  == nops < MaxOps
 CanAdd == nops < MaxOps /\ Len(items) < MaxLen
 Op(newItems, newRef, label) ==
   /\ items' = newItems /\ ref' = newRef /\ nops' = nops + 1 /\ act' = label
-  /\ UNCHANGED <<wpc, cur, res, sleep, ctxDone, pickLate, npicks, fails, backoffArg, lateStart>>
+  /\ UNCHANGED <<wpc, cur, res, sleep, ctxDone, pickLate, npicks, fails, backoffArg, lateStart, cancel>>
 
 RetHead(s) == IF s = <<>> THEN "nil" ELSE Head(s)
 RetLast(s) == IF s = <<>> THEN "nil" ELSE s[Len(s)]
@@ -72,10 +75,17 @@ Q_Filter(keep)     == CanOp /\ Op(SelectSeq(items, LAMBDA x : x \in keep),
                                   SelectSeq(ref, LAMBDA x : x \in keep), <<"Filter", keep>>)
 
 Stop == /\ WithStop /\ ~ctxDone /\ ctxDone' = TRUE /\ act' = <<"Stop">>
-        /\ UNCHANGED <<items, ref, nops, wpc, cur, res, sleep, pickLate, npicks, fails, backoffArg, lateStart>>
+        /\ UNCHANGED <<items, ref, nops, wpc, cur, res, sleep, pickLate, npicks, fails, backoffArg, lateStart, cancel>>
+
+\* CancelTaskDelay: sets the cancelDelay flag only while a wait is in progress (the worker is inside the wait loop);
+\* the flag makes every following tick check the head at once and is dropped when waitForTask returns.
+\* Called at any other time it changes nothing.
+Q_CancelDelay == /\ WithCancel /\ cancel' = (cancel \/ wpc = "select") /\ act' = <<"CancelDelay">>
+                 /\ UNCHANGED <<items, ref, nops, wpc, cur, res, sleep, ctxDone, pickLate, npicks, fails, backoffArg, lateStart>>
 
 (* ---------- worker goroutine ---------- *)
-W(pc2, label) == /\ wpc' = pc2 /\ act' = label
+\* the flag lives from the entry into the wait loop (reset there) to the return of waitForTask (reset by the defer)
+W(pc2, label) == /\ wpc' = pc2 /\ act' = label /\ cancel' = (cancel /\ wpc = "select" /\ pc2 = "select")
 WU == <<items, ref, nops, ctxDone>>    \* never changed by pure control steps
 
 W_Start == /\ wpc = "notstarted" /\ W("top", <<"W_Start">>)
@@ -104,7 +114,7 @@ W_SelectTick(elapsed) ==
   /\ wpc = "select"
   /\ IF FixStop /\ ctxDone
        THEN W("exit", <<"W_SelectTick", elapsed>>) /\ UNCHANGED pickLate
-       ELSE IF elapsed /\ items # <<>>
+       ELSE IF (elapsed \/ cancel) /\ items # <<>>
               THEN W("get", <<"W_SelectTick", elapsed>>) /\ pickLate' = ctxDone
               ELSE W("select", <<"W_SelectTick", elapsed>>) /\ UNCHANGED pickLate
   /\ UNCHANGED <<WU, cur, res, sleep, npicks, fails, backoffArg, lateStart>>
@@ -165,7 +175,7 @@ Env ==
   \/ \E id \in AllIds : Q_Remove(id)
   \/ Q_RemoveFirst \/ Q_RemoveLast
   \/ \E keep \in SUBSET Ids : Q_Filter(keep \cup Fresh) \/ Q_Filter(keep)
-  \/ Stop
+  \/ Stop \/ (~cancel /\ wpc = "select" /\ Q_CancelDelay)
 
 Worker ==
   \/ W_Start \/ W_Top \/ W_Shortcut \/ W_SelectCtx
@@ -180,7 +190,7 @@ Next == Env \/ Worker
 
 Init == /\ items = <<>> /\ ref = <<>> /\ nops = 0 /\ wpc = "notstarted" /\ cur = NIL /\ res = NoRes
         /\ sleep = "none" /\ ctxDone = FALSE /\ pickLate = FALSE /\ npicks = 0
-        /\ fails = [i \in AllIds |-> 0] /\ backoffArg = -1 /\ lateStart = FALSE /\ act = <<"Init">>
+        /\ fails = [i \in AllIds |-> 0] /\ backoffArg = -1 /\ lateStart = FALSE /\ cancel = FALSE /\ act = <<"Init">>
 
 Spec == Init /\ [][Next]_vars
 FairSpec == Spec /\ WF_vars(Worker)
@@ -200,6 +210,7 @@ SimNext ==
   \/ Q_RemoveFirst \/ Q_RemoveLast
   \/ \E keep \in S(SUBSET Ids) : Q_Filter(keep \cup Fresh) \/ Q_Filter(keep)
   \/ (npicks >= StopAfterPicks /\ nops >= StopAfterOps /\ wpc \in StopPcs /\ Stop)
+  \/ (~cancel /\ wpc \in CancelPcs /\ Q_CancelDelay)
   \/ W_Start \/ W_Top \/ W_Shortcut \/ W_SelectCtx
   \/ \E e \in S(IF ElapsedAlways THEN {TRUE} ELSE BOOLEAN) : W_SelectTick(e)
   \/ W_Get \/ W_Handled \/ W_Apply \/ W_Exit
@@ -225,6 +236,10 @@ HeadFirst     == [][(wpc = "get" /\ wpc' = "handling") => (cur' = Head(items))]_
 \* C04 (queue level): Fail / Repeat / Keep leave the task where it is; no pick without the delay
 FailKeepsPosition == [][(wpc = "apply" /\ wpc' = "top" /\ res.st \in {"Fail", "Repeat"}) => (items' = items)]_vars
 DelayRespected == [][(wpc = "shortcut" /\ wpc' # wpc /\ sleep # "none") => (wpc' = "select")]_vars
+\* beyond the listed properties: a cancelled delay ends at the next tick (the head is picked although the delay has not
+\* elapsed), and the flag never survives the wait it was set in
+CancelWakes   == [][(wpc = "select" /\ cancel /\ items # <<>> /\ ~ctxDone /\ act'[1] = "W_SelectTick") => (wpc' = "get")]_vars
+CancelScoped  == cancel => wpc = "select"
 \* beyond the listed properties: the worker goroutine only ends because of Stop
 WorkerDiesOnlyOnStop == (wpc \in {"exit", "stopped"}) => ctxDone
 TypeOK == /\ wpc \in {"notstarted", "top", "shortcut", "select", "get", "handling", "handled", "apply", "exit", "stopped"}
